@@ -245,8 +245,13 @@ class C18(core.Prop):
             w = []
             for i in range(nb * nm):
                 x = sym_real('w%d' % i)
-                symx.ENG.add(x.e > 0)
+                symx.ENG.add(x.e >= 0)         # weight 0 is a legal annotation ([H;0]); the total weight of a bead is positive
                 w.append(x)
+            for b in range(nb):
+                tot = w[b * nm]
+                for x in w[b * nm + 1:(b + 1) * nm]:
+                    tot = tot + x
+                symx.ENG.add(tot.e > 0)
             return {'pos': pos, 'w': w}
         n = shape['n']
         el = ['C', 'N', 'O', 'S', 'F', 'Cl'][:n]           # pairwise different: an RDKit atom is identified by its symbol
